@@ -20,6 +20,7 @@ import os
 import z3
 
 INT32_MAX = 2 ** 31 - 1
+VISITED = set()         # (path, line) of every statement executed symbolically since the last reset (line coverage for the evidence)
 
 
 class Unsupported(Exception):
@@ -205,6 +206,8 @@ class Executor:
         for path in files:
             src = open(path).read()
             tree = ast.parse(src)
+            for nd in ast.walk(tree):
+                nd._vf_path = path
             self.modules[path] = tree
             for node in tree.body:
                 if isinstance(node, ast.FunctionDef):
@@ -315,6 +318,7 @@ class Executor:
         return res
 
     def exec_stmt(self, s, env, pc):
+        VISITED.add((getattr(s, "_vf_path", None), s.lineno))
         if isinstance(s, ast.Expr):
             if isinstance(s.value, ast.Constant):
                 return [Outcome("fall", env, pc)]
